@@ -13,12 +13,12 @@
    checks/C13.py finds out at run time which state the library built from the working tree is in (by running the
    witness files of corpus/C13) and compares the library with the model in that state.
 
-     * for [legacy] the full-strength statement is FALSE: sections 5 below exhibit a witness file (built with the
-       model's encoders; every one is a file of corpus/C13 and is run on the implementation on every run) for each
-       forbidden outcome;
-     * for [repaired] it is TRUE: C13_no_oob (section 6), for every byte string and every fuel;
-       C13_link_recursion_bounded (section 7): the nesting of link chasing is cut by the code, the fuel of the model
-       is irrelevant from 101 units on.
+     * [repaired] is the code as it is in /repo today (all sixteen repairs committed).  For it the full-strength
+       statement is TRUE: C13_no_oob (section 5), for every byte string and every fuel; C13_link_recursion_bounded
+       (section 6): the nesting of link chasing is cut by the code, the fuel of the model is irrelevant from 101 on;
+     * [legacy] is kept for regression: section 8 exhibits a witness file (built with the model's encoders; every
+       one is a file of corpus/C13 and is run on the implementation on every run) for each forbidden outcome of the
+       code before the repairs (the _old_refuted theorems).
    What stays outside both: a client that walks a tree whose child pointers form a cycle never finishes
    (C13_cycle_refuted holds in both states: the ADF library has no tree walk of its own, the recursive readers are
    in cgns_io.c / cgns_internals.c and are covered by the mutation campaign only). *)
@@ -119,14 +119,57 @@ Theorem C13_walk_terminates : forall c bs, nofuel (database_open c bs).
 Proof. exact database_open_terminates. Qed.
 Print Assumptions C13_walk_terminates.
 
-(* ---- 5. the code before the repairs: one witness per forbidden outcome ([L] = [legacy]) *)
+(* ---- 5. THE CODE AS IT IS (all repairs of notes/C13-fixes are in /repo).  C13_no_oob: opening ANY byte string and walking it with ANY fuel yields, in every
+        event the client sees (and in the open itself), none of OOBW / OOBR / Uninit / Stale / Abort / UB.  The
+        client is harness/c13_adf.c: buffers of ADF_NAME_LENGTH+1 .. , link buffers of 5200 bytes, a data buffer of
+        mach_size(type) * count bytes, the type named to ADF_Read_All_Data being the one ADF_Get_Data_Type returned *)
+Theorem C13_no_oob : forall bs fuel, walk_safe (walk repaired fuel bs).
+Proof. exact walk_repaired_safe. Qed.
+Print Assumptions C13_no_oob.
+
+(* the same for the single operations on an open file, for every node ID, name and header they may be handed:
+   no abort and no tag over-scan in ADFI_read_node_header, no overflow of sub_node_table[] in
+   ADFI_check_4_child_name, of link_data[] / tokenized_data_type[] / link_file[] / link_path[] in
+   ADF_Get_Link_Path and ADFI_chase_link, of the caller's buffer in ADF_Read_All_Data *)
+Theorem C13_no_oob_operations : forall bs f root, database_open repaired bs = Ok (f, root) ->
+  (forall id name, safe (check_4_child_name repaired f id name)) /\ (forall id name, safe (get_node_id_top repaired f id name)) /\
+  (forall id, safe (chase_link repaired f id)) /\ (forall id, safe (get_link_path repaired f id 1025 4097)) /\
+  (forall id, safe (read_node_header repaired f id)) /\
+  (forall h t, 0 < mach_size t -> 0 <= prod_dims h -> prod_dims h * mach_size t <= DATA_CAP -> 0 <= nh_nchunks h ->
+               safe (read_all_data repaired f h t (prod_dims h * mach_size t))).
+Proof. exact ops_repaired_safe. Qed.
+Print Assumptions C13_no_oob_operations.
+
+Theorem C13_open_never_aborts : forall bs, safe (database_open repaired bs).
+Proof. exact database_open_safe. Qed.
+Print Assumptions C13_open_never_aborts.
+
+(* ---- 6. C13_link_recursion_bounded: ADF_Get_Node_ID / ADFI_chase_link of the repaired code give, for every file,
+        node and name, the same answer with any fuel from 101 units on: the nesting is cut by the code
+        (LINKS_TOO_DEEP at 100 nested activations), not by the fuel of the model *)
+Theorem C13_link_recursion_bounded : forall f pid name id fuel, (101 <= fuel)%nat ->
+  get_node_id repaired fuel f 0 pid name = get_node_id_top repaired f pid name /\
+  chase_at repaired (get_node_id repaired (pred fuel) f 1) f 0 id = chase_link repaired f id.
+Proof. exact link_recursion_bounded. Qed.
+Print Assumptions C13_link_recursion_bounded.
+
+(* ---- 7. what no repair of the ADF core changes: a child pointer redirected to an ancestor makes the CLIENT's walk
+        exhaust any amount of fuel (both states) *)
+Theorem C13_cycle_refuted : forall c, c = legacy \/ c = repaired ->
+  exists bs, forall n, last (walk_events (walk c n bs)) (EvD 0) = EvFuel.
+Proof. exact cycle_refuted. Qed.
+Print Assumptions C13_cycle_refuted.
+
+(* ---- 8. regression witnesses: the code BEFORE the repairs ([legacy]) violates the property; one witness file per
+        forbidden outcome.  The files are corpus/C13/wit_*.adf and are run on the implementation on every run: if a
+        repair is lost, the witness's finding key fires and the model switch of that repair goes back to [legacy] *)
 (* 01. section 6 #12: valid file, root with two children, header field entries_for_sub_nodes 00000008 -> 00000002:
    ADFI_read_sub_node_table stores 8 entries into a 2-entry malloc *)
-Theorem C13_oob_refuted :
+Theorem C13_oob_old_refuted :
   exists bs, on_open legacy bs (fun f r => check_4_child_name legacy f r [66] = OOBW 1 /\
                                            get_node_id_top legacy f r [66] = OOBW 1) False.
 Proof. exact oob_write_refuted. Qed.
-Print Assumptions C13_oob_refuted.
+Print Assumptions C13_oob_old_refuted.
 
 Example C13_oob_witness_is_one_field_from_valid :
   wit_oobw = firstn 342 wit_valid ++ hexenc 8 2 ++ skipn 350 wit_valid /\
@@ -135,92 +178,92 @@ Example C13_oob_witness_is_one_field_from_valid :
 Proof. split; [exact wit_oobw_is_one_field|exact (proj1 (wit_valid_ok legacy (or_introl eq_refl)))]. Qed.
 
 (* 01. entries_for_sub_nodes = 0 with num_sub_nodes = 2: the name loop loads from a zero-size malloc *)
-Theorem C13_oob_read_refuted : exists bs, on_open legacy bs (fun f r => check_4_child_name legacy f r [66] = OOBR 1) False.
+Theorem C13_oob_read_old_refuted : exists bs, on_open legacy bs (fun f r => check_4_child_name legacy f r [66] = OOBR 1) False.
 Proof. exact oob_read_refuted. Qed.
-Print Assumptions C13_oob_read_refuted.
+Print Assumptions C13_oob_read_old_refuted.
 
 (* 02. a data-chunk table whose end pointer claims 6 entries, read into malloc(2 entries) *)
-Theorem C13_data_chunk_table_refuted :
+Theorem C13_data_chunk_table_old_refuted :
   exists bs, on_open legacy bs (fun f r => match read_node_header legacy f (0, 884) with
                                            | Ok h => is_out (read_all_data legacy f h [73; 52] 8) (OOBW 2)
                                            | _ => False end) False.
 Proof. exact dct_refuted. Qed.
-Print Assumptions C13_data_chunk_table_refuted.
+Print Assumptions C13_data_chunk_table_old_refuted.
 
 (* 03. link nodes: payload of 6000 bytes; dimension 2^64-1 (negative as int); dimension 2^63 (0 as int, then
    link_data[2^63] = 0); a five-token data type; a 3000-character file part *)
-Theorem C13_link_buffer_refuted :
+Theorem C13_link_buffer_old_refuted :
   exists bs, on_open legacy bs (fun f r => get_link_path legacy f (0, 884) 5200 5200 = OOBW 3 /\
                                            is_out (chase_link legacy f (0, 884)) (OOBW 3)) False.
 Proof. exact link_buffer_refuted. Qed.
-Print Assumptions C13_link_buffer_refuted.
-Theorem C13_link_negative_length_refuted :
+Print Assumptions C13_link_buffer_old_refuted.
+Theorem C13_link_negative_length_old_refuted :
   exists bs, on_open legacy bs (fun f r => is_out (chase_link legacy f (0, 884)) (OOBW 6)) False.
 Proof. exact link_negative_refuted. Qed.
-Print Assumptions C13_link_negative_length_refuted.
-Theorem C13_link_truncated_length_refuted :
+Print Assumptions C13_link_negative_length_old_refuted.
+Theorem C13_link_truncated_length_old_refuted :
   exists bs, on_open legacy bs (fun f r => is_out (chase_link legacy f (0, 884)) (OOBW 3)) False.
 Proof. exact link_index_refuted. Qed.
-Print Assumptions C13_link_truncated_length_refuted.
-Theorem C13_link_tokens_refuted :
+Print Assumptions C13_link_truncated_length_old_refuted.
+Theorem C13_link_tokens_old_refuted :
   exists bs, on_open legacy bs (fun f r => get_link_path legacy f (0, 884) 5200 5200 = OOBW 4) False.
 Proof. exact link_tokens_refuted. Qed.
-Print Assumptions C13_link_tokens_refuted.
-Theorem C13_link_file_part_refuted :
+Print Assumptions C13_link_tokens_old_refuted.
+Theorem C13_link_file_part_old_refuted :
   exists bs, on_open legacy bs (fun f r => clean (get_link_path legacy f (0, 884) 5200 5200) = true /\
                                            is_out (chase_link legacy f (0, 884)) (OOBW 8)) False.
 Proof. exact link_file_part_refuted. Qed.
-Print Assumptions C13_link_file_part_refuted.
+Print Assumptions C13_link_file_part_old_refuted.
 
 (* 04. a link whose target path passes through the link itself: Get_Node_ID -> chase_link -> Get_Node_ID ... nests
    deeper than any fuel (in the C: unbounded recursion, link_depth is a local of each activation) *)
-Theorem C13_link_recursion_refuted :
+Theorem C13_link_recursion_old_refuted :
   exists bs, on_open legacy bs (fun f r => get_node_id_top legacy f r [76] = Ok (0, 884) /\
                                            is_out (chase_link legacy f (0, 884)) OutOfFuel) False.
 Proof. exact link_recursion_refuted. Qed.
-Print Assumptions C13_link_recursion_refuted.
+Print Assumptions C13_link_recursion_old_refuted.
 
 (* 05. format byte NUL: assert(format != UNDEFINED_FORMAT); format byte 0xFF: shift of a negative char *)
-Theorem C13_abort_refuted : exists bs, database_open legacy bs = Abort.
+Theorem C13_abort_old_refuted : exists bs, database_open legacy bs = Abort.
 Proof. exact abort_refuted. Qed.
-Print Assumptions C13_abort_refuted.
-Theorem C13_format_shift_refuted : exists bs, database_open legacy bs = UB.
+Print Assumptions C13_abort_old_refuted.
+Theorem C13_format_shift_old_refuted : exists bs, database_open legacy bs = UB.
 Proof. exact format_shift_refuted. Qed.
-Print Assumptions C13_format_shift_refuted.
+Print Assumptions C13_format_shift_old_refuted.
 
 (* 06. "TaiL" -> "XaiL": ADFI_stridx_c scans beyond char disk_node_data[246] *)
-Theorem C13_tagscan_refuted :
+Theorem C13_tagscan_old_refuted :
   exists bs, on_open legacy bs (fun f r => is_out (read_node_header legacy f r) (OOBR 5)) False.
 Proof. exact tagscan_refuted. Qed.
-Print Assumptions C13_tagscan_refuted.
+Print Assumptions C13_tagscan_old_refuted.
 
 (* 07 / 08 / 14 / 15. the caller's data buffer: I4[99999999999999]; a node typed I4,I4 read as I4; a header that
    declares sizeof(int) = 8; the zero fill of missing data; a data chunk of negative length *)
-Theorem C13_datatype_overflow_refuted : exists bs, data_of legacy bs [73; 52] 4 = UB.
+Theorem C13_datatype_overflow_old_refuted : exists bs, data_of legacy bs [73; 52] 4 = UB.
 Proof. exact datatype_overflow_refuted. Qed.
-Print Assumptions C13_datatype_overflow_refuted.
-Theorem C13_compound_type_refuted : exists bs, data_of legacy bs [73; 52] 4 = OOBW 7.
+Print Assumptions C13_datatype_overflow_old_refuted.
+Theorem C13_compound_type_old_refuted : exists bs, data_of legacy bs [73; 52] 4 = OOBW 7.
 Proof. exact compound_type_refuted. Qed.
-Print Assumptions C13_compound_type_refuted.
-Theorem C13_header_sizes_refuted : exists bs, data_of legacy bs [73; 52] 4 = OOBW 7.
+Print Assumptions C13_compound_type_old_refuted.
+Theorem C13_header_sizes_old_refuted : exists bs, data_of legacy bs [73; 52] 4 = OOBW 7.
 Proof. exact header_sizes_refuted. Qed.
-Print Assumptions C13_header_sizes_refuted.
-Theorem C13_zero_fill_refuted : exists bs, data_of legacy bs [73; 52] 4 = OOBW 7.
+Print Assumptions C13_header_sizes_old_refuted.
+Theorem C13_zero_fill_old_refuted : exists bs, data_of legacy bs [73; 52] 4 = OOBW 7.
 Proof. exact zero_fill_refuted. Qed.
-Print Assumptions C13_zero_fill_refuted.
-Theorem C13_negative_chunk_refuted : exists bs, data_of legacy bs [73; 52] 8 = OOBW 6.
+Print Assumptions C13_zero_fill_old_refuted.
+Theorem C13_negative_chunk_old_refuted : exists bs, data_of legacy bs [73; 52] 8 = OOBW 6.
 Proof. exact negative_chunk_refuted. Qed.
-Print Assumptions C13_negative_chunk_refuted.
+Print Assumptions C13_negative_chunk_old_refuted.
 
 (* 13. file cut inside the root node header: ADFI_read_file hands out buffer bytes it never read *)
-Theorem C13_stale_refuted :
+Theorem C13_stale_old_refuted :
   exists bs, on_open legacy bs (fun f r => is_out (read_node_header legacy f r) Stale) False.
 Proof. exact stale_refuted. Qed.
-Print Assumptions C13_stale_refuted.
+Print Assumptions C13_stale_old_refuted.
 
-Theorem C13_full_refuted : ~ C13_full legacy.
+Theorem C13_full_old_refuted : ~ C13_full legacy.
 Proof. exact full_refuted. Qed.
-Print Assumptions C13_full_refuted.
+Print Assumptions C13_full_old_refuted.
 
 (* every one of these files is rejected with an error code by the repaired code *)
 Example C13_witnesses_rejected_when_repaired :
@@ -250,43 +293,3 @@ Example C13_valid_witness_clean :
           (walk_events (walk legacy 10 wit_valid)) = true.
 Proof. split; [exact (proj2 (wit_valid_ok repaired (or_intror eq_refl)))|exact (proj2 (wit_valid_ok legacy (or_introl eq_refl)))]. Qed.
 
-(* ---- 6. the repaired code.  C13_no_oob: opening ANY byte string and walking it with ANY fuel yields, in every
-        event the client sees (and in the open itself), none of OOBW / OOBR / Uninit / Stale / Abort / UB.  The
-        client is harness/c13_adf.c: buffers of ADF_NAME_LENGTH+1 .. , link buffers of 5200 bytes, a data buffer of
-        mach_size(type) * count bytes, the type named to ADF_Read_All_Data being the one ADF_Get_Data_Type returned *)
-Theorem C13_no_oob : forall bs fuel, walk_safe (walk repaired fuel bs).
-Proof. exact walk_repaired_safe. Qed.
-Print Assumptions C13_no_oob.
-
-(* the same for the single operations on an open file, for every node ID, name and header they may be handed:
-   no abort and no tag over-scan in ADFI_read_node_header, no overflow of sub_node_table[] in
-   ADFI_check_4_child_name, of link_data[] / tokenized_data_type[] / link_file[] / link_path[] in
-   ADF_Get_Link_Path and ADFI_chase_link, of the caller's buffer in ADF_Read_All_Data *)
-Theorem C13_no_oob_operations : forall bs f root, database_open repaired bs = Ok (f, root) ->
-  (forall id name, safe (check_4_child_name repaired f id name)) /\ (forall id name, safe (get_node_id_top repaired f id name)) /\
-  (forall id, safe (chase_link repaired f id)) /\ (forall id, safe (get_link_path repaired f id 1025 4097)) /\
-  (forall id, safe (read_node_header repaired f id)) /\
-  (forall h t, 0 < mach_size t -> 0 <= prod_dims h -> prod_dims h * mach_size t <= DATA_CAP -> 0 <= nh_nchunks h ->
-               safe (read_all_data repaired f h t (prod_dims h * mach_size t))).
-Proof. exact ops_repaired_safe. Qed.
-Print Assumptions C13_no_oob_operations.
-
-Theorem C13_open_never_aborts : forall bs, safe (database_open repaired bs).
-Proof. exact database_open_safe. Qed.
-Print Assumptions C13_open_never_aborts.
-
-(* ---- 7. C13_link_recursion_bounded: ADF_Get_Node_ID / ADFI_chase_link of the repaired code give, for every file,
-        node and name, the same answer with any fuel from 101 units on: the nesting is cut by the code
-        (LINKS_TOO_DEEP at 100 nested activations), not by the fuel of the model *)
-Theorem C13_link_recursion_bounded : forall f pid name id fuel, (101 <= fuel)%nat ->
-  get_node_id repaired fuel f 0 pid name = get_node_id_top repaired f pid name /\
-  chase_at repaired (get_node_id repaired (pred fuel) f 1) f 0 id = chase_link repaired f id.
-Proof. exact link_recursion_bounded. Qed.
-Print Assumptions C13_link_recursion_bounded.
-
-(* ---- 8. what no repair of the ADF core changes: a child pointer redirected to an ancestor makes the CLIENT's walk
-        exhaust any amount of fuel (both states) *)
-Theorem C13_cycle_refuted : forall c, c = legacy \/ c = repaired ->
-  exists bs, forall n, last (walk_events (walk c n bs)) (EvD 0) = EvFuel.
-Proof. exact cycle_refuted. Qed.
-Print Assumptions C13_cycle_refuted.
